@@ -162,3 +162,11 @@ Proof.
   rewrite spec_int_split by (assumption || lia). now rewrite Z.add_assoc.
 Qed.
 Print Assumptions generated_reads_compose_C03.
+
+(* the generated read_as_bytes returns whole bytes read at a byte boundary unchanged *)
+Theorem generated_read_as_bytes_aligned_C03 B a k : wf B -> 0 <= a -> 0 <= k -> a + k <= zlen B ->
+  gen_read_as_bytes (VBytes B) (VInt (8 * a)) (VInt (8 * k)) = Ok (VBytes (slice a (a + k) B), VInt (8 * a + 8 * k)).
+Proof.
+  intros W Ha Hk Hin. rewrite gen_read_as_bytes_is_model by lia. now rewrite read_bytes_aligned by (assumption || lia).
+Qed.
+Print Assumptions generated_read_as_bytes_aligned_C03.
